@@ -92,10 +92,11 @@ pub const ENUM_GROUP: u64 = 160; // 32 read positions x 5 fault kinds per world
 /// complete enumeration for small worlds: seeds of one group share a world; the position inside the
 /// group selects (index of the faulted read, fault kind). A position beyond the last read of the
 /// load fires nothing, which is how the run learns that the world's positions are exhausted.
-fn gen_enumerate(seed: u64) -> Case {
-    let group = seed / ENUM_GROUP;
-    let pos = seed % ENUM_GROUP;
-    let mut r = Rng::new(group ^ fnv64("C15-enum"));
+fn gen_enumerate(base_seed: u64, seed: u64, family_index: u64) -> Case {
+    // the j-th run of this family: world = j / ENUM_GROUP (derived from the base seed), position = j % ENUM_GROUP
+    let group = family_index / ENUM_GROUP;
+    let pos = family_index % ENUM_GROUP;
+    let mut r = Rng::new(base_seed.wrapping_mul(0x9E3779B97F4A7C15) ^ group ^ fnv64("C15-enum"));
     let gp = GraphParams { nv: (1, 7), extra_edge_factor: 2.5, ..Default::default() };
     let mut w = World::gen_graph(&mut r, &gp);
     w.gz_edges = r.chance(0.5);
@@ -130,9 +131,15 @@ impl Check for C15 {
             Tier::Thorough => 600000,
         }
     }
+    fn gen_indexed(&self, base_seed: u64, i: u64, family: &str, family_index: u64, tier: Tier) -> Case {
+        if family == "enumerate" {
+            return gen_enumerate(base_seed, base_seed.wrapping_add(i), family_index);
+        }
+        self.gen(base_seed.wrapping_add(i), family, tier)
+    }
     fn gen(&self, seed: u64, family: &str, tier: Tier) -> Case {
         if family == "enumerate" {
-            return gen_enumerate(seed);
+            return gen_enumerate(seed, seed, seed);
         }
         let mut r = Rng::new(seed ^ fnv64("C15"));
         let gp = match tier {
@@ -251,7 +258,7 @@ impl Check for C15 {
         }
     }
     fn rule(&self) -> String {
-        "each evaluation = one generated network (1-120 vertices, parallel edges, self loops, isolated vertices, hubs of degree >4, vertex file with shuffled / extra columns, explicit or scanned counts, every file plain or gzip, sometimes a gzip file without the .gz suffix) written to the simulated disk and loaded through DefaultGraphBuilder::build and SpeedTraversalEngine::new while the simulator injects faults at read() calls: family legal = short reads down to 1 byte + EINTR at a per-run rate up to 0.9 (graph must be exact), family hard = one EIO (one-shot or sticky) or one truncated gzip stream (load must fail or be exact; never hang, panic or differ silently), family nofault = none; family enumerate = worlds of 1-7 vertices shared by groups of 160 consecutive seeds, in which every read index 0..31 is faulted with each of five fault kinds (1-byte short read, 3-byte short read, EINTR, one-shot EIO, sticky EIO): a complete enumeration of single-fault positions for every world whose load needs at most 32 reads and whose group lies entirely inside the run's seed range (reach probes enumerated_positions_fired / enumerated_positions_beyond_last_read count both sides). In the other families the position of the faulted read is drawn per run. non-trivial = at least one edge; distinct = distinct (edge list, fault list)".into()
+        "each evaluation = one generated network (1-120 vertices, parallel edges, self loops, isolated vertices, hubs of degree >4, vertex file with shuffled / extra columns, explicit or scanned counts, every file plain or gzip, sometimes a gzip file without the .gz suffix) written to the simulated disk and loaded through DefaultGraphBuilder::build and SpeedTraversalEngine::new while the simulator injects faults at read() calls: family legal = short reads down to 1 byte + EINTR at a per-run rate up to 0.9 (graph must be exact), family hard = one EIO (one-shot or sticky) or one truncated gzip stream (load must fail or be exact; never hang, panic or differ silently), family nofault = none; family enumerate = worlds of 1-7 vertices shared by groups of 160 consecutive runs of the family, in which every read index 0..31 is faulted with each of five fault kinds (1-byte short read, 3-byte short read, EINTR, one-shot EIO, sticky EIO): a complete enumeration of single-fault positions for every world whose load needs at most 32 reads and whose group is completed within the run's budget (reach probes enumerated_positions_fired / enumerated_positions_beyond_last_read count both sides). In the other families the position of the faulted read is drawn per run. non-trivial = at least one edge; distinct = distinct (edge list, fault list)".into()
     }
     fn assumptions(&self) -> Vec<String> {
         vec![
